@@ -257,6 +257,35 @@ def oracle(p):
             except Exception as e:  # noqa
                 fail("C05:Image.sample:linear:border:raises", f"raises {type(e).__name__}: {str(e)[:120]}", src=sd)
 
+    # module API on the image's OWN grid (source omitted, or an equal grid): through the precomputed same-grid matrix the image
+    # itself is returned, for every axes argument and both flags (C05_module_own_index_id)
+    for D in (2, 3):
+        for flag in (True, False):
+            gd = dict(size=[5, 4, 3][:D], spacing=[1.0, 2.0, 1.5][:D], center=[1.0, -2.0, 0.5][:D], direction=rand_dir(rng, D), align_corners=flag)
+            g = mk(gd)
+            data = ((torch.randn((1, 1) + tuple(g.shape), dtype=torch.float64) * 32).round() / 8)
+            for axn in (None, "GRID", "CUBE", "CUBE_CORNERS", "WORLD"):
+                for sname, sgrid in (("source-omitted", None), ("source-equal", mk(gd))):
+                    for mode in ("linear", "nearest"):
+                        try:
+                            counts["own_modules"] = counts.get("own_modules", 0) + 1
+                            kw = dict(axes=None if axn is None else AX[axn], sampling=mode, padding="border")
+                            outs = {}
+                            m = SampleImage(g, sgrid, **kw)
+                            outs["SampleImage"] = m(g.points(m.axes()).unsqueeze(0), data.float())
+                            outs["AlignImage"] = AlignImage(g, sgrid, **kw)(None, data.float())
+                            outs["TransformImage"] = TransformImage(g, sgrid, **kw)(None, data.float())
+                            for nm, o_ in outs.items():
+                                if tuple(o_.shape) != tuple(data.shape) or not bool(((o_.double() - data).abs() <= 2e-4 * (float(data.abs().max()) + 1)).all()):
+                                    j = torch.nonzero((o_.double() - data).abs()[0, 0] > 2e-4 * (float(data.abs().max()) + 1))
+                                    j = j[0].tolist() if len(j) else []
+                                    fail(f"C05:{nm}:{axn or 'default'}:own-grid:{sname}",
+                                         f"{nm}(target, {'source=None' if sgrid is None else 'source=equal grid'}, axes={axn}, {mode}) on the image's own "
+                                         f"grid (align_corners={flag}) does not return the image: sample {j[::-1]} (x,..) is "
+                                         f"{float(o_.double()[0, 0][tuple(j)]) if j else None} instead of {float(data[0, 0][tuple(j)]) if j else None}",
+                                         src=gd, mode=mode, data=data[0].tolist())
+                        except Exception as e:  # noqa
+                            fail(f"C05:modules:{axn or 'default'}:own-grid:raises", f"raises {type(e).__name__}: {str(e)[:120]}", src=gd, mode=mode)
     # mixed align_corners flags whose cube extents coincide: spacing_a * (n_a - 1) == spacing_b * n_b on every axis, same centre
     # and orientation (e.g. 10 x 8 samples with align_corners=False and 11 x 9 samples of the same spacing with align_corners=True)
     for D in (2, 3):
